@@ -19,6 +19,7 @@ import (
 	"filippo.io/sunlight/verifharness/internal/eng"
 	"fmt"
 	"io"
+	"io/fs"
 	"strconv"
 	"strings"
 	"unicode"
@@ -911,7 +912,7 @@ func (b mirrorBackend) Fetch(ctx context.Context, key string) ([]byte, error) {
 	s := b.s
 	d, ok := s.objects[key]
 	if !ok {
-		return nil, fmt.Errorf("key %q not found", key)
+		return nil, fmt.Errorf("key %q not found: %w", key, fs.ErrNotExist) // as LocalBackend reports a missing file
 	}
 	if r := mirrorReqOf(ctx); r != nil {
 		if kind, _, rest := s.classify(key); kind == "tile" {
